@@ -153,12 +153,13 @@ def sibling_forms(W, ob, report=True):
     for name, marker, F in ((SL + '::synchronized_inputs', 'default', 'self.current_frame'),
                             (SL + '::confirmed_inputs', 'blank_input', 'arg2')):
         f = W.fn(name)
-        G = W.guards(f)
-        bl = [t for t in f.calls() if last_seg(t.callee.best) == marker]
+        # the per-player body may be a loop in the function or the closure of a `map` (an iterator chain): look in both
+        hosts = [f] + [c for c in W.closures_of(f)]
+        bl = [(h, t) for h in hosts for t in h.calls() if last_seg(t.callee.best) == marker]
         ob.require_count(len(bl), 1, 'cut-off branch in %s' % short(f.path))
-        for t in bl:
-            g = G.guard(t.bb)
-            out.append((f, t.line, g, F))
+        for h, t in bl:
+            g = W.guards(h).guard(t.bb)
+            out.append((h, t.line, g, F))
     # 3: spectator closure: Disconnected construction
     # 4: lockstep debug_assert (debug builds only): the boolean it compares with `frame == NULL`
     for fn2, s in W.constructions('InputStatus', 'Disconnected'):
@@ -323,8 +324,9 @@ def o4(W, ob):
     c = W.fn(P2P + '::confirmed_frame')
     cx = W.ctx(c)
     acc = None
-    for l in range(len(c.locals)):
-        if c.local_name(l) == 'confirmed_frame':
+    for l in range(c.argc + 1, len(c.locals)):     # the accumulator, whatever it is called: the local one of whose definitions is a `min`
+        dl = cx.full_defs(l)
+        if len(dl) >= 2 and any((cx.expr_rvalue(d.rv) if k == 'stmt' else cx.expr_call(d))[0] == 'min' for k, d in dl):
             acc = l
     ds = cx.full_defs(acc) if acc is not None else []
     upd = []
@@ -356,7 +358,7 @@ def o4(W, ob):
                             filt = True
                         if seg == 'map' and k.endswith('.last_frame'):
                             mp = True
-            extra = [x for x in segs if x not in ('iter', 'into_iter', 'filter', 'map', 'min', 'copied', 'cloned', 'deref', 'as_slice')]
+            extra = [x for x in segs if x not in ('iter', 'into_iter', 'filter', 'map', 'min', 'fold', 'copied', 'cloned', 'deref', 'as_slice')]
             if src_ok and filt and mp and not extra:
                 ok = True
                 upd = [t]
